@@ -56,7 +56,12 @@ def _case(draw):
     q = draw(st.tuples(st.integers(-3, 3), st.integers(-3, 3), st.integers(-3, 3), st.integers(-3, 3)))
     if all(x == 0 for x in q):
         q = (1, 0, 0, 0)
-    return {"spec": spec, "molecule": n == 1 and draw(st.booleans()), "scale": draw(st.sampled_from([0.5, 2.0, 3.0])),
+    return {"spec": spec, "molecule": n == 1 and draw(st.booleans()),
+            "scale": draw(st.sampled_from([0.5, 2.0, 3.0, 1e-3, 1e-4])),
+            # weak couplings split off the Hamiltonian before the calculation (remove_cutoff_coupling, value in 1/cm);
+            # the calculator object bootstrapped before on another system / with another rotating-wave frequency
+            "split": draw(st.sampled_from([None, None, None, 10, 40, 90])) if n >= 2 else None,
+            "rebootstrap": draw(st.sampled_from([False, False, True])),
             "quat": list(q), "perm": list(draw(st.permutations(list(range(n))))),
             "tensor": draw(st.booleans()) if n >= 2 else False}
 
@@ -73,7 +78,16 @@ def rotation(q):
                         [2 * (b * d - a * c), 2 * (c * d + a * b), a * a - b * b - c * c + d * d]]) / nrm
 
 
-def run_calc(qr, spec, molecule=False, tensor=False, fingerprint=False):
+def split_spec(spec, split):
+    """the system whose weak couplings (|J| < split) are removed (Hamiltonian.remove_cutoff_coupling)"""
+    if not split:
+        return spec
+    n = len(spec["E"])
+    J = [[0 if i == j or abs(spec["J"][i][j]) < split else spec["J"][i][j] for j in range(n)] for i in range(n)]
+    return dict(spec, J=J)
+
+
+def run_calc(qr, spec, molecule=False, tensor=False, fingerprint=False, split=None, rebootstrap=False, repeat=False):
     t0, nt, dt = spec["time"]
     ta = qr.TimeAxis(t0, int(nt), dt)
     agg = gens.make_aggregate(qr, spec, build=not molecule)
@@ -81,6 +95,9 @@ def run_calc(qr, spec, molecule=False, tensor=False, fingerprint=False):
     if molecule:
         mol = agg.monomers[0]
         calc = qr.AbsSpectrumCalculator(ta, system=mol)
+        if rebootstrap:
+            with qr.energy_units("1/cm"):
+                calc.bootstrap(rwa=float(spec["E"][0]) + 400.0)
         with qr.energy_units("1/cm"):
             calc.bootstrap(rwa=float(spec["E"][0]) + 100.0)
         extra["rwa"] = (spec["E"][0] + 100.0) * orc.CM2INT
@@ -92,21 +109,35 @@ def run_calc(qr, spec, molecule=False, tensor=False, fingerprint=False):
             kw = dict(relaxation_tensor=RT, effective_hamiltonian=ham)
             with qr.eigenbasis_of(ham):
                 extra["Rdiag"] = numpy.array([RT.data[a, a, a, a] for a in range(ham.dim)])
-        calc = qr.AbsSpectrumCalculator(ta, system=agg, **kw)
+        if split:
+            with qr.energy_units("1/cm"):
+                agg.get_Hamiltonian().remove_cutoff_coupling(float(split))
+        if rebootstrap:
+            # the calculator was set up for another realisation of the system (all site energies 300 1/cm higher) first
+            other = gens.make_aggregate(qr, dict(spec, E=[e + 300 for e in spec["E"]]))
+            calc = qr.AbsSpectrumCalculator(ta, system=other, **kw)
+            calc.bootstrap()
+            calc.system = agg
+        else:
+            calc = qr.AbsSpectrumCalculator(ta, system=agg, **kw)
         calc.bootstrap()
         if fingerprint:
             H = agg.get_Hamiltonian()
             D = agg.get_TransitionDipoleMoment()
             extra["before"] = {"H": numpy.array(H._data, copy=True), "D": numpy.array(D._data, copy=True),
+                               "JR": numpy.array(H.JR, copy=True) if getattr(H, "_has_remainder_coupling", False) else numpy.zeros(1),
                                "flags": [bool(getattr(H, "_has_remainder_coupling", False)), bool(H.is_basis_protected),
                                          int(H.get_current_basis()), int(D.get_current_basis())]}
             if tensor:
                 extra["before"]["R"] = numpy.array(kw["relaxation_tensor"]._data, copy=True)
     sp = calc.calculate(raw=True)
+    if repeat:
+        extra["second"] = numpy.array(calc.calculate(raw=True).data)
     if fingerprint and not molecule:
         H = agg.get_Hamiltonian()
         D = agg.get_TransitionDipoleMoment()
         extra["after"] = {"H": numpy.array(H._data, copy=True), "D": numpy.array(D._data, copy=True),
+                          "JR": numpy.array(H.JR, copy=True) if getattr(H, "_has_remainder_coupling", False) else numpy.zeros(1),
                           "flags": [bool(getattr(H, "_has_remainder_coupling", False)), bool(H.is_basis_protected),
                                     int(H.get_current_basis()), int(D.get_current_basis())]}
         if tensor:
@@ -127,7 +158,15 @@ def check_case(case, ctx):
               "HT" if ht else "OB")
     tag = ("molecule" if molecule else "aggregate") + ("/tensor" if tensor else "")
 
-    ok, r = guarded(ctx, "calculate", lambda: run_calc(qr, spec, molecule, tensor, fingerprint=True), tag)
+    split = None if (molecule or tensor) else case.get("split")
+    reboot = bool(case.get("rebootstrap"))
+    if split:
+        ctx.label("weak-couplings-split-off")
+        tag = tag + "/split"
+    if reboot:
+        ctx.label("calculator-bootstrapped-before")
+    ok, r = guarded(ctx, "calculate", lambda: run_calc(qr, spec, molecule, tensor, fingerprint=True, split=split,
+                                                       rebootstrap=reboot, repeat=True), tag)
     if not ok:
         return
     w, S, extra = r
@@ -137,7 +176,7 @@ def check_case(case, ctx):
 
     # ---- direct Fourier sum on the returned axis ----------------------------------------------------------
     t = numpy.arange(int(nt)) * dt
-    H = gens.site_hamiltonian_int(spec)
+    H = gens.site_hamiltonian_int(split_spec(spec, split))
     ev, C = numpy.linalg.eigh(H[1:, 1:])
     gs, dgs = [], []
     for b in spec["bath"]:
@@ -192,6 +231,9 @@ def check_case(case, ctx):
     nonpar = n >= 2 and any(numpy.linalg.norm(numpy.cross(d[0], d[i])) > 1e-9 for i in range(1, n))
     ctx.mark_nontrivial(n >= 2 and coupled and nonpar and fwhm >= 4 * abs(dw))
 
+    if "second" in extra:
+        ctx.close("repeated-calculation-same-spectrum", extra["second"], S, rtol=1e-9,
+                  scale=max(1e-300, float(numpy.max(numpy.abs(S)))), where=tag)
     if molecule:
         return
 
@@ -209,18 +251,18 @@ def check_case(case, ctx):
     sc = max(1e-300, float(numpy.max(numpy.abs(S))))
     s = case["scale"]
     spec_s = dict(spec, d=[[s * x for x in v] for v in spec["d"]])
-    ok, r2 = guarded(ctx, "calculate", lambda: run_calc(qr, spec_s, False, tensor), tag + "/scaled")
+    ok, r2 = guarded(ctx, "calculate", lambda: run_calc(qr, spec_s, False, tensor, split=split), tag + "/scaled")
     if ok:
         ctx.close("dipole-scaling", r2[1], s * s * S, rtol=1e-9, scale=s * s * sc, where=tag)
     Rm = rotation(case["quat"])
     spec_r = dict(spec, d=[list(Rm @ numpy.array(v)) for v in spec["d"]])
-    ok, r3 = guarded(ctx, "calculate", lambda: run_calc(qr, spec_r, False, tensor), tag + "/rotated")
+    ok, r3 = guarded(ctx, "calculate", lambda: run_calc(qr, spec_r, False, tensor, split=split), tag + "/rotated")
     if ok:
         ctx.close("rotation-invariance", r3[1], S, rtol=1e-9, scale=sc, where=tag)
     p = case["perm"]
     spec_p = dict(spec, E=[spec["E"][i] for i in p], d=[spec["d"][i] for i in p], bath=[spec["bath"][i] for i in p],
                   J=[[spec["J"][p[i]][p[j]] for j in range(n)] for i in range(n)])
-    ok, r4 = guarded(ctx, "calculate", lambda: run_calc(qr, spec_p, False, tensor), tag + "/relabelled")
+    ok, r4 = guarded(ctx, "calculate", lambda: run_calc(qr, spec_p, False, tensor, split=split), tag + "/relabelled")
     if ok:
         ctx.close("relabelling-invariance", r4[1], S, rtol=1e-8, scale=sc, where=tag)
     # sum rule: integral of the raw spectrum per sum of squared dipoles does not depend on the couplings
